@@ -63,6 +63,7 @@ type jobctlWorld struct {
 	indexHashes    []string
 	decidedAtSync  string // non-empty: the strategy was already decided by what the running sync can see
 	failBias       bool   // kubelet terminations are mostly failures (retry-focused histories)
+	staleRecreate  bool   // E-FreshJobOnCreate left (known finding F19): two incarnations of one task name
 	forceKind      *int   // scenarios: the next kubelet termination is of this kind (0 = Succeeded, 2 = Failed)
 }
 
@@ -561,6 +562,28 @@ func (w *jobctlWorld) monitorCall(c sim.Call) {
 		if c.Result != "ok" {
 			return
 		}
+		// E-FreshJobOnCreate (known finding F19): a sync acting on a STALE Job (its own earlier
+		// status update not yet in the Job cache) re-creates a task name that the authoritative
+		// status already records, after the first Pod vanished.  Generated histories that walk into
+		// this are tagged out of envelope; the fixed replay f19 keeps the monitors on.
+		if w.c.curScenario == "" {
+			recorded := func(jj *execution.Job) bool {
+				for _, r := range jj.Status.Tasks {
+					if r.Name == name {
+						return true
+					}
+				}
+				return false
+			}
+			if recorded(j) && !recorded(w.cachedJob) {
+				if !w.envelopeBroken {
+					w.c.Count("jc.envelope.stale-job-recreates-task")
+				}
+				w.envelopeBroken = true
+				w.staleRecreate = true
+				return
+			}
+		}
 		if w.decidedAtSync != "" {
 			w.c.Violate("C08", "no-create-once-complete", "pod %s created although the Job was already complete for this sync (%s)", name, w.decidedAtSync)
 		}
@@ -749,7 +772,7 @@ func (w *jobctlWorld) monitorJobVersion() {
 	if !p.Status.StartTime.IsZero() && !p.Status.StartTime.Equal(j.Status.StartTime) {
 		w.c.Violate("C11", "startTime-stable", "startTime changed from %v to %v", p.Status.StartTime, j.Status.StartTime)
 	}
-	if pf := p.Status.Condition.Finished; pf != nil && j.DeletionTimestamp == nil && p.DeletionTimestamp == nil && !w.resultEdited {
+	if pf := p.Status.Condition.Finished; pf != nil && j.DeletionTimestamp == nil && p.DeletionTimestamp == nil && !w.resultEdited && !w.staleRecreate {
 		cf := j.Status.Condition.Finished
 		if cf == nil {
 			w.c.Violate("C11", "finished-stays-finished", "finished Job became unfinished")
@@ -797,7 +820,7 @@ func (w *jobctlWorld) monitorJobVersion() {
 			if pr, ok := prev[name]; ok && !pr.FinishTimestamp.IsZero() {
 				continue
 			}
-			if pod := w.apiPod(name); pod != nil && podAlive(pod) {
+			if pod := w.apiPod(name); pod != nil && podAlive(pod) && !w.staleRecreate {
 				if ref := metav1.GetControllerOf(pod); ref != nil && string(ref.UID) == w.uid {
 					w.c.Violate("C09", "never-lost-while-existing", "task %s recorded finished (%s) while its pod exists in phase %s", name, cr.Status.State, pod.Status.Phase)
 				}
